@@ -127,6 +127,11 @@ def pattern_text(c: dict) -> str:
         return f"{c['cls'][0]}()"
     if k == "m_or":
         return " | ".join(pattern_text(s) for s in c["subs"])
+    if k == "m_seq":
+        names = ["a", "b", "c"][: c["n"]]
+        if c["op"] != "":
+            names.insert(int(c["op"]), "*r")
+        return "[" + ", ".join(names) + "]"
     raise core.MachineryError(f"cannot render pattern {c}")
 
 
@@ -172,6 +177,20 @@ def _predicate(pred: dict, varname, ctx):
     from pyanalyze.stacked_scopes import PredicateProvider
 
     p = pred["p"]
+    if p == "assignable" and pred.get("ptype") == "matchseq":
+        from pyanalyze import patma
+
+        if core.canon(pred["pat"]) != core.canon({"k": "typed", "c": "Sequence"}):
+            raise core.MachineryError(f"matchseq predicate with unexpected pattern {pred}")
+        return P.IsAssignablePredicate(patma.MatchableSequence, ctx, positive_only=bool(pred["ponly"]))
+    if p == "seqlen":
+        from pyanalyze import patma
+
+        return patma.LenPredicate(pred["n"], bool(pred["useis"]), ctx)
+    if p == "always":
+        from pyanalyze import patma
+
+        return patma.AlwaysMatching()
     if p == "assignable":
         kw = {"runtime_classes": True} if pred.get("rt") else {}  # keyword introduced by proposed/C02-fix-1.diff
         return P.IsAssignablePredicate(val(pred["pat"]), ctx, positive_only=bool(pred["ponly"]), **kw)
@@ -192,6 +211,8 @@ def _concrete(con: dict, varname, ctx):
 
     ct = con["ct"]
     pos = bool(con["pos"])
+    if con.get("var", "x") == "none":
+        varname = None  # Constraint(varname=None, ...): made for an unnamed match subject
     if ct == "predicate":
         return Constraint(varname, ConstraintType.predicate, pos, _predicate(con["pred"], varname, ctx))
     if ct == "is_truthy":
